@@ -563,6 +563,8 @@ class CallMixin:
             v = args.pos[0]
             o = self.local(s2, v)
             if v.k == 'ref' and v.t == 'kwdict':
+                if self.cfg.kwdict_copy_as_dict:
+                    return [('ok', s2, self.new_dict(s2, [(sv_str(k), x) for k, x in o.items.items()]))]
                 ref = self.alloc(s2, 'kwdict', Obj('kwdict', items=dict(o.items)))
                 return [('ok', s2, sv_ref(ref, 'kwdict'))]
             if v.k == 'ref' and v.t in ('dict', 'chainmap'):
@@ -587,6 +589,26 @@ class CallMixin:
                     res.append((kind, s3, r))
             return res
         raise Unsupported('dict(...) form')
+
+    def b_OrderedDict(self, st, args):
+        if args.pos or args.kw:
+            return self.prim(st, 'ext!OrderedDict', list(args.pos))
+        s2 = st.fork()
+        return [('ok', s2, self.new_dict(s2, []))]
+
+    def _dict_view(self, st, recv, what):
+        s2 = st.fork()
+        self.publish(s2, recv)
+        return self.prim(s2, 'dict_' + what, [recv], raises=False, pure=True)
+
+    def m_dict_items(self, st, recv, args):
+        return self._dict_view(st, recv, 'items')
+
+    def m_dict_keys(self, st, recv, args):
+        return self._dict_view(st, recv, 'keys')
+
+    def m_dict_values(self, st, recv, args):
+        return self._dict_view(st, recv, 'values')
 
     def b_ChainMap(self, st, args):
         s2 = st.fork()
